@@ -697,7 +697,10 @@ fn classify(cx: &Ctx, c: &Cmp, kind: &str, row_index: Option<usize>, err: Option
     if fewer(" % ") && expr_has(c.original, |n| matches!(n, Expr::BinaryExpr(b) if b.op == Operator::Modulo && ty(&b.left).is_some_and(|t| matches!(t, DataType::Decimal128(_, s) if s > 0)) && !matches!(b.right.as_ref(), Expr::Column(_)))) {
         return Some("decimal-modulo-one-folded-to-zero");
     }
-    if fewer(" * ") && expr_has(c.original, |n| matches!(n, Expr::BinaryExpr(b) if b.op == Operator::Multiply && is_dec(n) && (is_lit_or_cast_lit(&b.left) || is_lit_or_cast_lit(&b.right)))) {
+    // (an operand folded to zero by constant folding / guarantees counts like a literal zero: the product is
+    // replaced by a zero literal of the operand's own decimal type)
+    let zero_dec_literal = c.simplified_txt.contains("Decimal128(0.0") || c.simplified_txt.contains("Decimal128(0,") || c.simplified_txt.contains("Decimal128(0 ");
+    if fewer(" * ") && expr_has(c.original, |n| matches!(n, Expr::BinaryExpr(b) if b.op == Operator::Multiply && is_dec(n) && (is_lit_or_cast_lit(&b.left) || is_lit_or_cast_lit(&b.right) || zero_dec_literal))) {
         return Some("decimal-multiply-by-zero-keeps-literal-type");
     }
     if expr_has(c.original, |n| {
